@@ -132,6 +132,20 @@ def selection_factories(z):
                                                            roi=R.EllipticalROI(1.0, 1.0, 1.2, 0.7))
     else:
         F['roi_rect_pixel_mixed'] = lambda: S.RoiSubsetState(xatt=z.pix[0], yatt=z.i, roi=R.RectangularROI(0.5, 5.5, -2.5, 0.5))
+    try:
+        from glue.core import roi_pretransforms as P
+        small = R.RectangularROI(-0.02, 0.02, -0.04, 0.04)
+        F['roi_pre_radian'] = lambda: S.RoiSubsetState(xatt=z.f, yatt=z.i, roi=R.RectangularROI(-0.02, 0.02, -2.5, 2.5),
+                                                       pretransform=P.RadianTransform(coords=['x']))
+        # chains as the scatter viewer builds them for full-sphere projections
+        F['roi_pre_sphere_chain'] = lambda: S.RoiSubsetState(xatt=z.f, yatt=z.i, roi=small,
+                                                             pretransform=P.FullSphereLongitudeTransform(next_transform=P.RadianTransform(coords=['x', 'y'])))
+        F['roi_pre_radian_chain'] = lambda: S.RoiSubsetState(xatt=z.f, yatt=z.i, roi=R.RectangularROI(-0.05, 3.0, -0.04, 0.04),
+                                                             pretransform=P.RadianTransform(coords=['y'], next_transform=P.FullSphereLongitudeTransform()))
+        F['roi_pre_projection'] = lambda: S.RoiSubsetState(xatt=z.f, yatt=z.i, roi=R.RectangularROI(0.1, 0.6, 0.2, 0.9),
+                                                           pretransform=P.ProjectionMplTransform('rectilinear', [-2.0, 3.0], [-3.0, 3.0], 'linear', 'linear'))
+    except ImportError:
+        pass
     F['roi_nd_2att'] = lambda: S.RoiSubsetStateNd(atts=[z.f, z.i], roi=R.RectangularROI(-0.75, 1.25, -1.5, 1.5))
     proj = np.array([[1.0, 0.0, 0.0, 0.0], [0.0, 1.0, 0.0, 0.0], [0.0, 0.0, 1.0, 0.0], [0.0, 0.0, 0.0, 1.0]])
     F['roi3d'] = lambda: S.RoiSubsetState3d(z.f, z.i, z.g, R.Projected3dROI(R.RectangularROI(-0.75, 1.75, -1.5, 1.5), proj))
